@@ -1,6 +1,7 @@
 package main
 
 import (
+	"bytes"
 	"encoding/json"
 	"errors"
 	"fmt"
@@ -33,6 +34,67 @@ func retErr(e *string) error {
 }
 
 var unencodable = make(chan int)
+
+// reflValue builds the Go value handed to zap.Reflect / AddReflected for a reflected leaf. Healthy and failing values
+// deliberately SHARE static types ([]interface{}, map[string]interface{}): whether a value encodes depends on what is
+// behind the interfaces, never on the static type of the container.
+//
+// The choice is a function of the leaf (no shared counter: ops are replayed concurrently by C08). reflRawOnly is set by the
+// MapObjectEncoder comparison only (single-threaded): the map encoder stores reflected values as they are, so a container
+// there would be indistinguishable from a nested object.
+var reflRawOnly bool
+
+func reflValue(j *string, salt int) any {
+	if j == nil {
+		if reflRawOnly {
+			return unencodable
+		}
+		switch salt % 3 {
+		case 1:
+			return []interface{}{unencodable}
+		case 2:
+			return map[string]interface{}{"c": unencodable}
+		}
+		return unencodable
+	}
+	raw := json.RawMessage(unhx(*j))
+	if reflRawOnly || (len(raw)+salt)%2 == 0 {
+		return raw
+	}
+	// the same JSON as a container of raw members — only when encoding/json reproduces the text byte for byte
+	var out any
+	switch {
+	case len(raw) > 1 && raw[0] == '[':
+		var elems []json.RawMessage
+		if json.Unmarshal(raw, &elems) != nil {
+			return raw
+		}
+		xs := make([]interface{}, len(elems))
+		for i, e := range elems {
+			xs[i] = e
+		}
+		out = xs
+	case len(raw) > 1 && raw[0] == '{':
+		var m map[string]json.RawMessage
+		if json.Unmarshal(raw, &m) != nil {
+			return raw
+		}
+		mm := make(map[string]interface{}, len(m))
+		for k, v := range m {
+			mm[k] = v
+		}
+		out = mm
+	default:
+		return raw
+	}
+	var buf bytes.Buffer
+	enc := json.NewEncoder(&buf)
+	enc.SetEscapeHTML(false)
+	if enc.Encode(out) != nil || !bytes.Equal(bytes.TrimSuffix(buf.Bytes(), []byte("\n")), raw) {
+		return raw
+	}
+	return out
+}
 
 func pInt(s string) int64        { v, err := strconv.ParseInt(s, 10, 64); must(err); return v }
 func pUint(s string) uint64      { v, err := strconv.ParseUint(s, 10, 64); must(err); return v }
@@ -81,11 +143,7 @@ func (o scriptObj) MarshalLogObject(enc zapcore.ObjectEncoder) error {
 		case "ns":
 			enc.OpenNamespace(key)
 		case "refl":
-			if c.J != nil {
-				_ = enc.AddReflected(key, json.RawMessage(unhx(*c.J)))
-			} else {
-				_ = enc.AddReflected(key, unencodable)
-			}
+			_ = enc.AddReflected(key, reflValue(c.J, len(key)))
 		}
 	}
 	return retErr(o.err)
@@ -127,11 +185,7 @@ func (a scriptArr) MarshalLogArray(enc zapcore.ArrayEncoder) error {
 		case "arr":
 			_ = enc.AppendArray(scriptArr{calls: c.Calls})
 		case "refl":
-			if c.J != nil {
-				_ = enc.AppendReflected(json.RawMessage(unhx(*c.J)))
-			} else {
-				_ = enc.AppendReflected(unencodable)
-			}
+			_ = enc.AppendReflected(reflValue(c.J, 1))
 		}
 	}
 	return retErr(a.err)
@@ -275,10 +329,7 @@ func buildField(f encField) zapcore.Field {
 		}
 		return zap.Errors(key, es)
 	case "refl":
-		if f.J != nil {
-			return zap.Reflect(key, json.RawMessage(unhx(*f.J)))
-		}
-		return zap.Reflect(key, unencodable)
+		return zap.Reflect(key, reflValue(f.J, len(key)))
 	case "stringer":
 		return zap.Stringer(key, buildStringer(*f.O))
 	case "error":
